@@ -5,7 +5,7 @@ package slice
 // Contracts for the verifier in /verif (comment-only file; no declarations).
 
 //@ func Uniform(ndims, val) returns (r)
-//@   locals result, i
+//@   locals result, i@loop
 //@   safety C02 C01
 //@   requires ndims >= 0
 //@   fresh r
@@ -21,7 +21,7 @@ package slice
 //@   ensures [C02.ones] len(r) == ndims && forall(k, 0, ndims, r[k] == 1)
 
 //@ func Equal(lhs, rhs) returns (r)
-//@   locals i
+//@   locals i@loop
 //@   assigns nothing
 //@   ensures [C08.shape-equal] iff(r, len(lhs) == len(rhs) && forall(k, 0, len(lhs), lhs[k] == rhs[k]))
 //@   loop 0 invariant [C08.shape-equal-loop] -1 <= rangeindex && rangeindex < len(lhs) && len(lhs) == len(rhs) && forall(k, 0, rangeindex + 1, lhs[k] == rhs[k])
